@@ -1,5 +1,6 @@
 """Master::read_input (src/lib.rs): the real read loop with parser and successor summarised; <= K values then EOF;
 4 policies; every parser outcome (value of any type / end / recoverable error / I/O error) and successor answer."""
+import json
 import z3
 from .lib import *
 from .report import Candidate, Broken
@@ -235,14 +236,23 @@ def read_input(ctx, want):
         f.paths = len(done)
         if f.discharged and not f.samples:
             f.add_sample({'bodies': 'Master::read_input', 'paths': len(done), 'assertion': f.desc, 'verdict': 'unsat(negation) on every path'})
-        # one candidate per role
-        seen = set(); keep = []
-        for c in f.candidates:
-            if c.role in seen: continue
-            seen.add(c.role); keep.append(c)
-        f.candidates = keep
     run.absorb(ex)
-    replay_readinput(ctx, [c for f in fams.values() for c in f.candidates])
+    # one candidate per role is reported; up to 12 distinct outcome sequences per role are tried natively (the ones
+    # with a Break / more events first) and the first that reproduces is kept
+    for f in fams.values():
+        groups = {}
+        for c in f.candidates:
+            groups.setdefault(c.role, []).append(c)
+        keep = []
+        for role, lst in groups.items():
+            uniq = {}
+            for c in sorted(lst, key=lambda c: -(len(c.model.get('outcomes', [])) + 3 * ('process->Break' in c.model.get('outcomes', [])))):
+                uniq.setdefault(json.dumps([c.model.get('outcomes'), c.model.get('policy'), c.model.get('only_objects_and_arrays')], default=str), c)
+            tries = list(uniq.values())[:12]
+            replay_readinput(ctx, tries)
+            hit = next((c for c in tries if c.status == 'reproduced'), None) or tries[0]
+            keep.append(hit)
+        f.candidates = keep
 
 
 SPELL = {'value:Null': 'null', 'value:Boolean': 'true', 'value:String': '"s"', 'value:Number': '7', 'value:Object': '{"a":1}', 'value:Array': '[1]'}
